@@ -271,19 +271,23 @@ class FakeSocket:
     def push(self, data, addr, dst=None):
         self.q.put((data, addr, dst))
 
-    def wait_processed(self, n, real_timeout=20.0):
-        """block until the server asked for datagram n+1, i.e. has handled n"""
+    def wait_processed(self, n, real_timeout=20.0, alive=None):
+        """block until the server asked for datagram n+1, i.e. has handled n (True); False if the thread that
+        serves the request port has ended (`alive()` false) and will never ask again"""
         deadline = _real_monotonic() + real_timeout
         with self.cv:
             while True:
+                if alive is not None and not alive():
+                    return False
                 # every successful get is preceded by one recv call; timeouts add calls too,
                 # so we track deliveries instead
                 if self.q.empty() and getattr(self, "_delivered", 0) >= n and self.recv_calls > getattr(self, "_calls_at_delivery", 0):
-                    return
+                    return True
                 left = deadline - _real_monotonic()
                 if left <= 0:
                     raise InfraError("request port did not process the datagrams in time")
                 self.cv.wait(min(left, 0.05))
+        return True
 
     def _delivered_one(self):
         with self.cv:
